@@ -1000,9 +1000,27 @@ func rulesC19(c *Ctx) {
 			nPath++
 			d, eerr := iw.ObjOf(as.Lhs[0]), iw.ObjOf(as.Lhs[1])
 			evx := g.VertexOf(ecall)
+			// the buffer and the locals it is handed on to by plain copies (the parameter of an expanded helper)
+			bufs := map[types.Object]bool{d: true}
+			for changed := true; changed; {
+				changed = false
+				for _, w := range Writes(iw.Body, false) {
+					if w.RHS == nil {
+						continue
+					}
+					if id, isID := ast.Unparen(w.RHS).(*ast.Ident); isID && bufs[iw.ObjOf(id)] {
+						if o := iw.ObjOf(w.LHS); o != nil && !bufs[o] {
+							if _, lhsID := ast.Unparen(w.LHS).(*ast.Ident); lhsID {
+								bufs[o] = true
+								changed = true
+							}
+						}
+					}
+				}
+			}
 			isWrite := func(v int) bool {
 				for _, call := range iw.AllCalls(g.Node(v), false) {
-					if sel, ok := ast.Unparen(call.Fun).(*ast.SelectorExpr); ok && sel.Sel.Name == "Write" && iw.IsField(sel.X, rwcF) && len(call.Args) == 1 && iw.ObjOf(call.Args[0]) == d {
+					if sel, ok := ast.Unparen(call.Fun).(*ast.SelectorExpr); ok && sel.Sel.Name == "Write" && iw.IsField(sel.X, rwcF) && len(call.Args) == 1 && bufs[iw.ObjOf(call.Args[0])] {
 						return true
 					}
 				}
@@ -1010,7 +1028,7 @@ func rulesC19(c *Ctx) {
 			}
 			isNL := func(v int) bool {
 				for _, w := range Writes(g.Node(v), false) {
-					if ce, ok := ast.Unparen(w.RHS).(*ast.CallExpr); ok && w.RHS != nil && iw.ObjOf(w.LHS) == d && iw.BuiltinName(ce) == "append" && len(ce.Args) == 2 && iw.ObjOf(ce.Args[0]) == d && exprStr(ce.Args[1]) == "'\\n'" {
+					if ce, ok := ast.Unparen(w.RHS).(*ast.CallExpr); ok && w.RHS != nil && bufs[iw.ObjOf(w.LHS)] && iw.BuiltinName(ce) == "append" && len(ce.Args) == 2 && bufs[iw.ObjOf(ce.Args[0])] && exprStr(ce.Args[1]) == "'\\n'" {
 						return true
 					}
 				}
